@@ -11,6 +11,21 @@ CLAIMED = {
             "Every node of the play tree (also inside a named flow) of every pool program x every kind of invalid call: the call must return Err and the instance must stay observationally equal (results, text, tags, choices, globals, visit counts, callback log, canonical save) on all continuations up to the depth bound. Exhaustive within the stated bounds; nothing is sampled.",
             "Trusted: the harness's observation function and canonicalisation (public getters + save_state); program pool is finite (hand-written feature programs + segment family). Hash-order nondeterminism is kept out of the pool (C03 owns it).",
             "DESIGN.md §5 C09"),
+    "C02": ("model_checking",
+            "explicit-state exploration of host-call histories on the real Story; at every node A=history, B=history+save+load into a fresh Story (and load into itself); bounded bisimulation (lockstep) of A and B, never merged",
+            "Every save point of every explored history (play, flow switch, path jump; inside functions/tunnels, with live threads, pending fallback choices, several flows, lists, RANDOM/shuffle state) of every pool and small corpus program: immediate observation incl. canonical re-save and all continuations up to the depth bound must be equal between the original and the restored story. Exhaustive within bounds.",
+            "Trusted: observation function + canonicalisation (choice `index` cache dropped, observer order across variables normalised). Error states are not save points (errors are not part of a save by design). Programs with hash-order-dependent output are excluded (C03).",
+            "DESIGN.md §5 C02"),
+    "C16": ("model_checking",
+            "explicit-state exploration of host-call histories with evaluate_function injected at every tree node; bounded bisimulation against the uninjected history; results compared with hand-computed expectations",
+            "Every node of the history tree (mid-paragraph, at choice points, at the end, in a named flow, after a load-into-self, after a path jump) x every designated pure function x {once, twice} + refused calls: result as the Ink rules give it, repeatable, and the story's later behaviour (incl. path jumps that keep the call stack) unchanged apart from function visit counts.",
+            "Trusted: the table of pure functions and their hand-computed results; behaviour-only comparison (no save text), function containers' counts excluded.",
+            "DESIGN.md §5 C16"),
+    "C17": ("model_checking",
+            "explicit-state exploration of host-call histories (play, flows, host assignment, load-into-self, path jump, abandoned slice, errors) followed by reset_state; bounded bisimulation against a freshly constructed Story with the same seed; invariant check of choose_path_string(reset=true)",
+            "After every explored history Reset must make the instance bisimilar (text, tags, choices, globals, counts, canonical save, callbacks of the still-attached observers/externals/handler) to Story::new with the same seed, for two setups (with and without error handler); a path jump with call-stack reset must keep globals and counts and leave exactly one thread with one call-stack element and no pending choice.",
+            "Trusted: observation function; the harness clears its own callback log when reset_state returns Ok. A reset refused while a time-limited continue is unfinished is not judged here (C08).",
+            "DESIGN.md §5 C17"),
 }
 
 ALL = [f"C{i:02d}" for i in range(1, 21)]
